@@ -20,16 +20,20 @@
 (* Rayleigh quotient of the start tensor" what makes DMRG energies monotone. *)
 EXTENDS SweepOps, TLC
 
-CONSTANTS L, NSTEPS, Alg,      \* "tdvp1" | "tdvp2" | "dmrg1" | "dmrg2"
+CONSTANTS LMAX, NMAX, ALGS,    \* all chain lengths 1..LMAX (two-site algorithms and DMRG: from 2), 1..NMAX steps / sweeps, algorithms in ALGS
           Bug                  \* "none"; negative controls: "skip_envl", "skip_envr", "half_full", "bond_plus"
 
+VARIABLE cfg                   \* [alg, L, n]: chosen in Init, constant afterwards
+L == cfg.L
+NSTEPS == cfg.n
+Alg == cfg.alg
 Sites == 0..(L-1)
 
 Body == BodyOf(Alg, L, Bug)
-Prog == ProgOf(Alg, L, NSTEPS, Bug)
+Prog == cfg.prog          \* = ProgOf(Alg, L, NSTEPS, Bug), computed once in Init
 
 VARIABLES pc, form, ver, bl, br, tsite, tbond, okLocal, recorded, lastLocal
-vars == <<pc, form, ver, bl, br, tsite, tbond, okLocal, recorded, lastLocal>>
+vars == <<cfg, pc, form, ver, bl, br, tsite, tbond, okLocal, recorded, lastLocal>>
 
 VersL(i) == [k \in 1..i |-> ver[k - 1]]                     \* versions of sites 0..i-1
 VersR(i) == [k \in 1..(L - 1 - i) |-> ver[i + k]]           \* versions of sites i+1..L-1
@@ -38,7 +42,9 @@ FreshR(i) == br[i] = VersR(i)
 LeftCanon(i) == \A k \in Sites : k < i => form[k] = "L"      \* all sites left of i
 RightCanon(i) == \A k \in Sites : k > i => form[k] = "R"     \* all sites right of i
 
-Init == /\ pc = 1
+Init == /\ \E c \in {x \in [alg : ALGS, L : 1..LMAX, n : 1..NMAX] : x.alg = "tdvp1" \/ x.L >= 2} :
+              cfg = [alg |-> c.alg, L |-> c.L, n |-> c.n, prog |-> ProgOf(c.alg, c.L, c.n, Bug)]
+        /\ pc = 1
         /\ form = [i \in Sites |-> "gen"] /\ ver = [i \in Sites |-> 0]
         /\ bl = [i \in Sites |-> <<-1>>] /\ br = [i \in Sites |-> <<-1>>]
         /\ tsite = [i \in Sites |-> 0] /\ tbond = [i \in 0..(L - 2) |-> 0]
@@ -48,6 +54,7 @@ Bump(S) == [i \in Sites |-> IF i \in S THEN ver[i] + 1 ELSE ver[i]]
 
 Exec ==
     /\ pc <= Len(Prog)
+    /\ cfg' = cfg
     /\ LET o == Prog[pc]  i == o.i IN
        /\ pc' = pc + 1
        /\ IF o.op = "initortho"
